@@ -289,6 +289,25 @@ fn c42(case: &Value) -> Value {
     json!({ "first": first, "same": same, "reps": reps, "diff_keys": diff_keys })
 }
 
+/// Generated identifiers embed source locations (`op_1v1__map__loc_nopath_1_0_1_17`), which serde
+/// does not keep (spans are `#[serde(skip)]`): drop the `__loc_...` tail of every identifier.
+fn strip_loc(s: &str) -> String {
+    let mut out = String::with_capacity(s.len());
+    let mut rest = s;
+    while let Some(i) = rest.find("__loc_") {
+        out.push_str(&rest[..i]);
+        let tail = &rest[i..];
+        let end = tail
+            .char_indices()
+            .find(|(_, c)| !(c.is_ascii_alphanumeric() || *c == '_'))
+            .map(|(j, _)| j)
+            .unwrap_or(tail.len());
+        rest = &tail[end..];
+    }
+    out.push_str(rest);
+    out
+}
+
 /// C20: rewrites before/after, and the serde round trip.
 fn rewrite(case: &Value) -> Value {
     let src = case["src"].as_str().unwrap_or("");
@@ -380,6 +399,7 @@ fn rewrite(case: &Value) -> Value {
                 "json_same": s1 == s2, "json_same_after_insts": s1 == s3, "json_len": s1.len(),
                 "insts_diags": diag_msgs(&d),
                 "code_same": c1 == c2, "code_some": c1.is_some(),
+                "code_same_noloc": c1.as_deref().map(strip_loc) == c2.as_deref().map(strip_loc),
                 "mermaid_same": p.to_mermaid(&WriteConfig::default()) == q.to_mermaid(&WriteConfig::default()),
                 "surface_same": p.surface_syntax_string() == q.surface_syntax_string(),
                 "json_keys": serde_json::from_str::<BTreeMap<String, Value>>(&s1).map(|m| m.keys().cloned().collect::<Vec<_>>()).unwrap_or_default(),
